@@ -39,6 +39,10 @@ fn add_windows(h: &mut History, rng: &mut Rng) {
     // single overwrite that grows the value (relocation) then flush
     extra.push(Op::Put(nk.min(12) - 1, ValSpec { len: 700, seed: 5, kind: 0 }));
     extra.push(Op::Flush);
+    // regression D8: an update, a flush, then a sync (the flush must not make the sync a no-op)
+    extra.push(Op::Put(0, ValSpec { len: 9, seed: 6, kind: 0 }));
+    extra.push(Op::Flush);
+    extra.push(rng.pick(&[Op::SyncAll, Op::SyncData, Op::DbSyncAll, Op::DbSyncData]).clone());
     extra.extend(h.ops.drain(..));
     h.ops = extra;
 }
